@@ -607,3 +607,511 @@ Proof.
     destruct (e_uid (fget n t)) eqn:Eu; [exact (Hrep1 eq_refl)|].
     destruct (e_dir (fget n t)) eqn:Ed; [exact (Hrep2 eq_refl eq_refl)|]. exact (Hrep3 eq_refl).
 Qed.
+
+(** * A live, replayed owner keeps its address across a start-up *)
+(** [o] holds [a]: the directory says so and the service's device says so *)
+Definition holds (o a : Z) (s : state) : Prop := In (a, o) (s_vips s) /\ dev_holds (s_devs s) o a = true.
+(** [a] is the only address of [o] in the directory (side condition of the restart: initialize() keeps, per owner,
+    the address listed last) *)
+Definition sole (o a : Z) (s : state) : Prop := forall a', In (a', o) (s_vips s) -> a' = a.
+Definition sole_addr (o a : Z) (s : state) : bool :=
+  forallb (fun e => negb (snd e =? o) || (fst e =? a)) (s_vips s).
+Definition fresh (o : Z) (s : state) : Prop := dev_stale (s_devs s) o = false.
+
+Lemma sole_addr_sole o a s : sole_addr o a s = true -> sole o a s.
+Proof.
+  intros H a' Hin. unfold sole_addr in H. rewrite forallb_forall in H. specialize (H _ Hin). cbn in H.
+  rewrite Z.eqb_refl in H. cbn in H. apply Z.eqb_eq in H. exact H.
+Qed.
+
+(** operations of the framework other than the owner's own delete, synchronize and a restart *)
+Definition calm (o : Z) (p : op) : bool :=
+  match p with
+  | ResUp _ | ResDown _ | SvcCreate _ _ => true
+  | SvcDelete x => negb (x =? o)
+  | _ => false
+  end.
+Definition mild (p : op) : bool :=
+  match p with ResUp _ | ResDown _ | SvcCreate _ _ => true | _ => false end.
+
+Lemma mild_calm o ops : forallb mild ops = true -> forallb (calm o) ops = true.
+Proof.
+  induction ops as [|p ops IH]; cbn; [reflexivity|]. intros H. apply andb_true_iff in H as [H1 H2].
+  rewrite (IH H2), andb_true_r. destruct p; cbn in *; try reflexivity; discriminate.
+Qed.
+
+Lemma create_fresh c o env s a :
+  dev_holds (s_devs s) o a = true -> dev_stale (s_devs (fst (svc_create c o env s))) o = false.
+Proof.
+  intros Hh. apply dev_holds_iff in Hh as [d [H1 H2]]. unfold svc_create. rewrite H1, H2.
+  destruct (d_dev d); cbn; unfold dev_stale; rewrite dget_dset_same; reflexivity.
+Qed.
+
+Lemma step_calm c o a p s :
+  calm o p = true -> wf c s -> holds o a s -> sole o a s ->
+  holds o a (fst (step c p s)) /\ sole o a (fst (step c p s)) /\
+  (fresh o s -> fresh o (fst (step c p s))) /\
+  (forall env, p = SvcCreate o env -> fresh o (fst (step c p s))).
+Proof.
+  intros Hc Hw [Hin Hh] Hs. destruct p; try discriminate; cbn [step fst].
+  - unfold holds, sole, fresh; cbn. repeat split; auto. intros; discriminate.
+  - unfold holds, sole, fresh; cbn. repeat split; auto. intros; discriminate.
+  - destruct (Z.eq_dec o0 o) as [->|Hne].
+    + destruct (svc_create_reuse c o env s a Hh) as (_ & Hv & Hh' & _).
+      pose proof (create_fresh c o env s a Hh) as Hf.
+      unfold holds, sole, fresh. rewrite Hv. repeat split; auto.
+    + destruct (svc_create c o0 env s) as [s' r] eqn:E. apply svc_create_outcome' in E. cbn [fst].
+      assert (Hx : forall env', SvcCreate o0 env <> SvcCreate o env') by (intros env' X; inversion X; contradiction).
+      inversion E as [r' Hr'|b s1 G1 G2 G3 G4 G5 G6 G7 G8 G9 G10|b s1 G1 G2 G3 G4 G5 G6 G7]; subst.
+      * unfold holds. repeat split; auto. intros env' X. destruct (Hx env' X).
+      * unfold holds, sole, fresh, dev_holds, dev_stale in *. rewrite G5, G6, dget_dset_other by exact Hne.
+        repeat split; auto.
+        -- apply in_or_app. left. exact Hin.
+        -- intros a' Ha. apply in_app_or in Ha as [Ha|[Ha|[]]]; [exact (Hs a' Ha)|]. inversion Ha; subst. contradiction.
+        -- intros env' X. destruct (Hx env' X).
+      * unfold holds, sole, fresh, dev_holds, dev_stale in *. rewrite G2, G3, dget_dset_other by exact Hne.
+        repeat split; auto. intros env' X. destruct (Hx env' X).
+  - cbn in Hc. apply negb_true_iff in Hc. apply Z.eqb_neq in Hc.
+    destruct (svc_delete_frame o0 s) as (_ & _ & _ & _ & _ & G). destruct Hw as (Hv & _).
+    unfold holds, sole, fresh, dev_holds, dev_stale in *. rewrite G, dget_ddel_other by exact Hc.
+    repeat split; auto.
+    + apply svc_delete_keeps; auto. intros [X _]. contradiction.
+    + intros a' Ha. apply Hs. exact (svc_delete_incl o0 s _ Ha).
+    + intros; discriminate.
+Qed.
+
+Lemma run_calm c o a ops : forall s,
+  forallb (calm o) ops = true -> wf c s -> holds o a s -> sole o a s ->
+  holds o a (run c ops s) /\ sole o a (run c ops s) /\
+  (fresh o s \/ (exists env, In (SvcCreate o env) ops) -> fresh o (run c ops s)).
+Proof.
+  induction ops as [|p ops IH]; intros s Hc Hw Hh Hs; cbn.
+  - split; [exact Hh|split; [exact Hs|]]. intros [H|[env []]]. exact H.
+  - cbn in Hc. apply andb_true_iff in Hc as [Hc1 Hc2].
+    destruct (step_calm c o a p s Hc1 Hw Hh Hs) as (Hh1 & Hs1 & Hf1 & Hf2).
+    destruct (IH _ Hc2 (step_wf c p s Hw) Hh1 Hs1) as (Hh2 & Hs2 & Hf3).
+    split; [exact Hh2|split; [exact Hs2|]].
+    intros [H|[env [H|H]]]; apply Hf3.
+    + left. exact (Hf1 H).
+    + left. exact (Hf2 env H).
+    + right. exists env. exact H.
+Qed.
+
+(** SvcRestart: the owner of a single address gets a (stale) device with that address *)
+Lemma fold_restart_holds_sole o a l : forall m,
+  (forall a', In (a', o) l -> a' = a) -> In (a, o) l \/ dev_holds m o a = true ->
+  dev_holds (fold_left restart_step l m) o a = true.
+Proof.
+  induction l as [|[b x] l IH]; intros m Hs H; cbn.
+  - destruct H as [[]|H]. exact H.
+  - apply IH; [intros a' Ha; apply Hs; right; exact Ha|].
+    destruct (Z.eq_dec x o) as [->|Hne].
+    + right. assert (b = a) by (apply Hs; left; reflexivity). subst b. unfold restart_step, dev_holds.
+      destruct (dget o m); rewrite dget_dset_same; cbn; apply Z.eqb_refl.
+    + destruct H as [[H|H]|H]; [inversion H; subst; contradiction|left; exact H|right].
+      unfold restart_step, dev_holds in *. destruct (dget x m); rewrite dget_dset_other by exact Hne; exact H.
+Qed.
+
+Lemma restart_holds o a s : In (a, o) (s_vips s) -> sole o a s -> holds o a (svc_restart s).
+Proof.
+  intros Hin Hs. split; [exact Hin|]. rewrite svc_restart_devs. apply fold_restart_holds_sole; [exact Hs|left; exact Hin].
+Qed.
+
+Lemma creates_In n env ops : In (n, env) (creates ops) -> In (SvcCreate n env) ops.
+Proof.
+  induction ops as [|p ops IH]; cbn; [auto|]. destruct p; cbn; try (intros H; right; exact (IH H)).
+  intros [H|H]; [inversion H; subst; left; reflexivity|right; exact (IH H)].
+Qed.
+
+Lemma on_created_mild c n t s t' ops dels : on_created c n t s = (t', ops, dels) -> forallb mild ops = true.
+Proof.
+  unfold on_created. destruct (is_dot n); [intros E; inversion E; reflexivity|].
+  destruct (negb (e_link (fget n t))); [intros E; inversion E; reflexivity|].
+  destruct (if e_dir (fget n t) then e_req (fget n t) else None) as [env|].
+  - destruct (env <? 0); intros E; inversion E; reflexivity.
+  - intros E; inversion E. unfold res_delta.
+    destruct (live (set_link false (fget n t)) && negb (live (fget n t))); [reflexivity|].
+    destruct (live (fget n t) && negb (live (set_link false (fget n t)))); reflexivity.
+Qed.
+
+Lemma replay_mild c l : forall t s t' ops dels, replay c l t s = (t', ops, dels) -> forallb mild ops = true.
+Proof.
+  induction l as [|n l IH]; intros t s t' ops dels E; cbn in E; [inversion E; reflexivity|].
+  destruct (on_created c n t s) as [[t1 o1] d1] eqn:E1.
+  destruct (replay c l t1 (run c o1 s)) as [[t2 o2] d2] eqn:E2. inversion E; subst.
+  rewrite forallb_app, (on_created_mild _ _ _ _ _ _ _ E1), (IH _ _ _ _ _ E2). reflexivity.
+Qed.
+
+(** the start-up in parts: what holds right before synchronize *)
+Lemma startup_parts c order t s t' ops dels :
+  startup c order t s = (t', ops, dels) -> covers t s ->
+  exists mid, ops = SvcRestart :: mid ++ [SvcSync] /\ forallb mild mid = true /\
+    covers t' (run c mid (svc_restart s)) /\ fresh_replayed t' (run c mid (svc_restart s)).
+Proof.
+  unfold startup. intros E Hc.
+  destruct (check_requests (glob order t) t) as [[svcs t0] rm0] eqn:E0.
+  destruct (replay c svcs t0 (run c [SvcRestart] s)) as [[t1 o1] d1] eqn:E1. inversion E; subst; clear E.
+  pose proof (check_requests_covers _ _ s _ _ _ E0 Hc) as Hc0.
+  assert (Hc1 : covers t0 (run c [SvcRestart] s)) by (apply (covers_same_res t0 s); [exact Hc0|reflexivity]).
+  destruct (replay_inv c svcs t0 _ t' o1 d1 E1 Hc1) as (Q & C & F).
+  assert (F0 : fresh_replayed t0 (run c [SvcRestart] s)).
+  { intros k x Hin Hst. cbn in Hin. rewrite (restart_all_stale s k x Hin) in Hst. discriminate. }
+  exists o1. repeat split; [exact (replay_mild _ _ _ _ _ _ _ E1)|exact C|exact (F F0)].
+Qed.
+
+(** synchronize keeps the address of a device that is not stale and whose resource exists *)
+Lemma sync_keeps c o a s :
+  wf c s -> holds o a s -> fresh o s -> In o (s_res s) ->
+  holds o a (fst (svc_sync s)) /\ fresh o (fst (svc_sync s)).
+Proof.
+  intros Hw [Hin Hh] Hf Hr.
+  assert (Hv : In (a, o) (s_vips (fst (step c SvcSync s)))).
+  { apply step_keeps_vip; [exact Hw|exact Hin|]. cbn. unfold fresh in Hf. rewrite Hf. cbn.
+    apply negb_false_iff. apply mem_z_In. exact Hr. }
+  cbn [step fst] in Hv.
+  assert (Hd : dget o (s_devs (fst (svc_sync s))) = dget o (s_devs s)).
+  { assert (Hm : mem_z o (stale_owners (s_devs s)) = false).
+    { destruct (mem_z o (stale_owners (s_devs s))) eqn:Em; [|reflexivity]. apply mem_z_In in Em.
+      apply stale_owners_In in Em; [|exact (proj1 (proj2 (proj2 (proj2 Hw))))]. unfold fresh in Hf. congruence. }
+    destruct (svc_sync_cases s) as [[E _]|[E _]]; rewrite E; cbn [s_devs set_vips]; rewrite del_all_dget, Hm; reflexivity. }
+  unfold holds, fresh, dev_holds, dev_stale in *. rewrite Hd. auto.
+Qed.
+
+Theorem startup_keeps_live_address c order t s o a :
+  wf c s -> (forall n, live (fget n t) = true -> In n (s_res s)) ->
+  nodup_z order = true -> In o order -> is_dot o = false -> replayable (fget o t) = true ->
+  lookup Z.eqb a (s_vips s) = Some o -> sole_addr o a s = true ->
+  let s' := run c (snd (fst (startup c order t s))) s in
+  lookup Z.eqb a (s_vips s') = Some o /\ dev_holds (s_devs s') o a = true /\ dev_stale (s_devs s') o = false.
+Proof.
+  intros Hw Hc Hnd Hord Hdot Hrep Hlk Hsole s'.
+  assert (Hin : In (a, o) (s_vips s)) by (apply (lookup_In Z.eqb zeqb_spec); exact Hlk).
+  pose proof (sole_addr_sole o a s Hsole) as Hs.
+  destruct (startup c order t s) as [[t' ops] dels] eqn:E. unfold s'. cbn [fst snd].
+  destruct (startup_parts c order t s t' ops dels E Hc) as (mid & -> & Hmild & Hcov & Hfr).
+  assert (Hcr : exists env, In (SvcCreate o env) mid).
+  { unfold replayable in Hrep. destruct (req_env (fget o t)) as [env|] eqn:Er; [|discriminate]. exists env.
+    pose proof (startup_replays_once c order t s o env Hnd Hord Hdot Er) as H1. rewrite E in H1. cbn [fst snd] in H1.
+    assert (H2 : In (o, env) (creates (SvcRestart :: mid ++ [SvcSync]))).
+    { assert (H3 : In (o, env) (filter (fun x : Z * Z => fst x =? o) (creates (SvcRestart :: mid ++ [SvcSync]))))
+        by (rewrite H1; left; reflexivity). apply filter_In in H3. tauto. }
+    apply creates_In in H2. destruct H2 as [H2|H2]; [discriminate|].
+    apply in_app_or in H2 as [H2|[H2|[]]]; [exact H2|discriminate]. }
+  change (SvcRestart :: mid ++ [SvcSync]) with ([SvcRestart] ++ mid ++ [SvcSync]). rewrite !run_app.
+  cbn [run step fst].
+  pose proof (step_wf c SvcRestart s Hw) as Hw1. cbn [step fst] in Hw1.
+  pose proof (restart_holds o a s Hin Hs) as Hh1.
+  assert (Hs1 : sole o a (svc_restart s)) by exact Hs.
+  destruct (run_calm c o a mid (svc_restart s) (mild_calm o mid Hmild) Hw1 Hh1 Hs1) as (Hh2 & _ & Hf2).
+  specialize (Hf2 (or_intror Hcr)).
+  pose proof (run_wf c mid _ Hw1) as Hw2.
+  assert (Hres : In o (s_res (run c mid (svc_restart s)))).
+  { apply Hcov. apply replayable_live. destruct Hh2 as [_ Hh2]. apply dev_holds_iff in Hh2 as [d [Hd1 Hd2]].
+    apply (Hfr o d); [apply dget_In; exact Hd1|]. unfold fresh, dev_stale in Hf2. rewrite Hd1 in Hf2. exact Hf2. }
+  destruct (sync_keeps c o a _ Hw2 Hh2 Hf2 Hres) as ([Hv3 Hh3] & Hf3).
+  pose proof (step_wf c SvcSync _ Hw2) as Hw3. cbn [step fst] in Hw3.
+  split; [|split; [exact Hh3|exact Hf3]].
+  apply (NoDup_lookup Z.eqb zeqb_spec); [exact (proj1 Hw3)|exact Hv3].
+Qed.
+
+(** the reclaim direction: an address the start-up takes from its holder belonged to a request that is not handed
+    over (container gone, request.yml gone or rejected by the schema) *)
+Theorem startup_frees_only_unreplayable c order t s o a :
+  wf c s -> (forall n, live (fget n t) = true -> In n (s_res s)) ->
+  nodup_z order = true -> In o order -> is_dot o = false ->
+  lookup Z.eqb a (s_vips s) = Some o -> sole_addr o a s = true ->
+  lookup Z.eqb a (s_vips (run c (snd (fst (startup c order t s))) s)) <> Some o ->
+  replayable (fget o t) = false.
+Proof.
+  intros Hw Hc Hnd Hord Hdot Hlk Hsole Hlost. destruct (replayable (fget o t)) eqn:Er; [|reflexivity].
+  exfalso. apply Hlost. exact (proj1 (startup_keeps_live_address c order t s o a Hw Hc Hnd Hord Hdot Er Hlk Hsole)).
+Qed.
+
+(** * ... and over whole histories *)
+Lemma sync_incl s e : In e (s_vips (fst (svc_sync s))) -> In e (s_vips s).
+Proof.
+  destruct (svc_sync_cases s) as [[E _]|[E _]]; rewrite E; cbn [s_vips set_vips]; intros H.
+  - unfold gc in H. apply filter_In in H as [H _]. exact (del_all_incl _ _ _ H).
+  - exact (del_all_incl _ _ _ H).
+Qed.
+
+Lemma startup_keeps_core c order t s o a :
+  wf c s -> covers t s -> nodup_z order = true -> In o order -> is_dot o = false ->
+  replayable (fget o t) = true -> holds o a s -> sole o a s ->
+  let s' := run c (snd (fst (startup c order t s))) s in
+  wf c s' /\ holds o a s' /\ sole o a s' /\ fresh o s'.
+Proof.
+  intros Hw Hc Hnd Hord Hdot Hrep [Hin _] Hs s'.
+  destruct (startup c order t s) as [[t' ops] dels] eqn:E. unfold s'. cbn [fst snd].
+  destruct (startup_parts c order t s t' ops dels E Hc) as (mid & -> & Hmild & Hcov & Hfr).
+  assert (Hcr : exists env, In (SvcCreate o env) mid).
+  { unfold replayable in Hrep. destruct (req_env (fget o t)) as [env|] eqn:Er; [|discriminate]. exists env.
+    pose proof (startup_replays_once c order t s o env Hnd Hord Hdot Er) as H1. rewrite E in H1. cbn [fst snd] in H1.
+    assert (H2 : In (o, env) (creates (SvcRestart :: mid ++ [SvcSync]))).
+    { assert (H3 : In (o, env) (filter (fun x : Z * Z => fst x =? o) (creates (SvcRestart :: mid ++ [SvcSync]))))
+        by (rewrite H1; left; reflexivity). apply filter_In in H3. tauto. }
+    apply creates_In in H2. destruct H2 as [H2|H2]; [discriminate|].
+    apply in_app_or in H2 as [H2|[H2|[]]]; [exact H2|discriminate]. }
+  change (SvcRestart :: mid ++ [SvcSync]) with ([SvcRestart] ++ mid ++ [SvcSync]). rewrite !run_app.
+  cbn [run step fst].
+  pose proof (step_wf c SvcRestart s Hw) as Hw1. cbn [step fst] in Hw1.
+  pose proof (restart_holds o a s Hin Hs) as Hh1.
+  assert (Hs1 : sole o a (svc_restart s)) by exact Hs.
+  destruct (run_calm c o a mid (svc_restart s) (mild_calm o mid Hmild) Hw1 Hh1 Hs1) as (Hh2 & Hs2 & Hf2).
+  specialize (Hf2 (or_intror Hcr)).
+  pose proof (run_wf c mid _ Hw1) as Hw2.
+  assert (Hres : In o (s_res (run c mid (svc_restart s)))).
+  { apply Hcov. apply replayable_live. destruct Hh2 as [_ Hh2]. apply dev_holds_iff in Hh2 as [d [Hd1 Hd2]].
+    apply (Hfr o d); [apply dget_In; exact Hd1|]. unfold fresh, dev_stale in Hf2. rewrite Hd1 in Hf2. exact Hf2. }
+  destruct (sync_keeps c o a _ Hw2 Hh2 Hf2 Hres) as (Hh3 & Hf3).
+  pose proof (step_wf c SvcSync _ Hw2) as Hw3. cbn [step fst] in Hw3.
+  split; [exact Hw3|split; [exact Hh3|split; [|exact Hf3]]].
+  intros a' Ha. apply Hs2. exact (sync_incl _ _ Ha).
+Qed.
+
+(** what the owner has been told, if anything, is [a] *)
+Definition told_ok (a : Z) (e : ent) : Prop := e_reply e = None \/ e_reply e = Some (RepOk a).
+
+Lemma replayable_inv e : replayable e = true ->
+  e_link e = true /\ e_dir e = true /\ exists env, e_req e = Some env /\ (env <? 0) = false.
+Proof.
+  unfold replayable, req_env, live. destruct (e_link e), (e_dir e); cbn; try discriminate.
+  destruct (e_req e) as [env|]; [|discriminate]. destruct (env <? 0) eqn:E; [discriminate|]. intros _.
+  split; [reflexivity|split; [reflexivity|exists env; split; [reflexivity|exact E]]].
+Qed.
+
+Lemma on_created_frame c n t s t' ops dels : on_created c n t s = (t', ops, dels) ->
+  (forall m, m <> n -> fget m t' = fget m t) /\ (forall x, In x dels -> x = n).
+Proof.
+  unfold on_created. destruct (is_dot n); [intros E; inversion E; subst; split; [intros; reflexivity|intros x []]|].
+  destruct (negb (e_link (fget n t))); [intros E; inversion E; subst; split; [intros; reflexivity|intros x []]|].
+  destruct (if e_dir (fget n t) then e_req (fget n t) else None) as [env|].
+  - destruct (env <? 0); intros E; inversion E; subst;
+      (split; [intros m Hm; apply fget_fset_other; congruence|intros x []]).
+  - intros E; inversion E; subst. split; [intros m Hm; apply fget_fset_other; congruence|].
+    intros x [H|[]]. auto.
+Qed.
+
+Lemma on_created_self c o a t s t' ops dels : on_created c o t s = (t', ops, dels) ->
+  replayable (fget o t) = true -> holds o a s -> told_ok a (fget o t) ->
+  replayable (fget o t') = true /\ dels = [] /\ told_ok a (fget o t').
+Proof.
+  intros E Hr [_ Hh] Ht. destruct (replayable_inv _ Hr) as (Hl & Hd & env & Hq & Hneg).
+  revert E. unfold on_created. destruct (is_dot o); [intros E; inversion E; subst; auto|].
+  rewrite Hl, Hd, Hq, Hneg. cbn [negb]. intros E; inversion E; subst. rewrite fget_fset_same.
+  split; [|split; [reflexivity|]].
+  - unfold replayable. rewrite req_env_set_reply. exact Hr.
+  - right. cbn [set_reply e_reply step]. rewrite (proj1 (svc_create_reuse c o env s a Hh)). reflexivity.
+Qed.
+
+Lemma on_created_spares c o a n t s t' ops dels : on_created c n t s = (t', ops, dels) ->
+  replayable (fget o t) = true -> holds o a s -> told_ok a (fget o t) ->
+  replayable (fget o t') = true /\ ~ In o dels /\ told_ok a (fget o t').
+Proof.
+  intros E Hr Hh Ht. destruct (Z.eq_dec n o) as [->|Hne].
+  - destruct (on_created_self c o a t s t' ops dels E Hr Hh Ht) as (H1 & -> & H3). auto.
+  - destruct (on_created_frame c n t s t' ops dels E) as (Hf & Hd). rewrite (Hf o) by congruence.
+    split; [exact Hr|split; [|exact Ht]]. intros Hin. apply Hd in Hin. congruence.
+Qed.
+
+Lemma replay_spares c o a l : forall t s t' ops dels, replay c l t s = (t', ops, dels) ->
+  wf c s -> replayable (fget o t) = true -> holds o a s -> sole o a s -> told_ok a (fget o t) ->
+  replayable (fget o t') = true /\ ~ In o dels /\ told_ok a (fget o t').
+Proof.
+  induction l as [|n l IH]; intros t s t' ops dels E Hw Hr Hh Hs Ht; cbn in E.
+  - inversion E; subst. split; [exact Hr|split; [intros []|exact Ht]].
+  - destruct (on_created c n t s) as [[t1 o1] d1] eqn:E1.
+    destruct (replay c l t1 (run c o1 s)) as [[t2 o2] d2] eqn:E2. inversion E; subst; clear E.
+    destruct (on_created_spares c o a n t s t1 o1 d1 E1 Hr Hh Ht) as (R1 & D1 & T1).
+    pose proof (mild_calm o o1 (on_created_mild _ _ _ _ _ _ _ E1)) as C1.
+    destruct (run_calm c o a o1 s C1 Hw Hh Hs) as (Hh1 & Hs1 & _).
+    destruct (IH t1 _ t' o2 d2 E2 (run_wf c o1 s Hw) R1 Hh1 Hs1 T1) as (R2 & D2 & T2).
+    split; [exact R2|split; [|exact T2]]. intros Hin. apply in_app_or in Hin. tauto.
+Qed.
+
+Lemma check_requests_rm l : forall t svcs t' rm, check_requests l t = (svcs, t', rm) ->
+  forall x, In x rm -> e_dir (fget x t) = false.
+Proof.
+  induction l as [|n l IH]; intros t svcs t' rm E x Hx; cbn in E; [inversion E; subst; destruct Hx|].
+  destruct (e_dir (fget n t)) eqn:Ed.
+  - destruct (check_requests l t) as [[sv t1] r1] eqn:E1. inversion E; subst. exact (IH _ _ _ _ E1 x Hx).
+  - destruct (check_requests l (fset n (set_link false (fget n t)) t)) as [[sv t1] r1] eqn:E1. inversion E; subst.
+    destruct Hx as [->|Hx]; [exact Ed|]. pose proof (IH _ _ _ _ E1 x Hx) as H.
+    destruct (Z.eq_dec x n) as [->|Hne]; [exact Ed|]. rewrite fget_fset_other in H by congruence. exact H.
+Qed.
+
+Lemma startup_spares c o a order t s t' ops dels : startup c order t s = (t', ops, dels) ->
+  wf c s -> replayable (fget o t) = true -> holds o a s -> sole o a s -> told_ok a (fget o t) ->
+  replayable (fget o t') = true /\ ~ In o dels /\ told_ok a (fget o t').
+Proof.
+  unfold startup. intros E Hw Hr [Hin _] Hs Ht.
+  destruct (check_requests (glob order t) t) as [[svcs t0] rm0] eqn:E0.
+  destruct (replay c svcs t0 (run c [SvcRestart] s)) as [[t1 o1] d1] eqn:E1. inversion E; subst; clear E.
+  destruct (replayable_inv _ Hr) as (_ & Hd & _).
+  destruct (check_requests_spec _ _ _ _ _ E0) as (_ & Hkeep & _).
+  pose proof (Hkeep o Hd) as Ho.
+  pose proof (step_wf c SvcRestart s Hw) as Hw1.
+  assert (Hr0 : replayable (fget o t0) = true) by (rewrite Ho; exact Hr).
+  assert (Ht0 : told_ok a (fget o t0)) by (rewrite Ho; exact Ht).
+  destruct (replay_spares c o a svcs t0 _ t' o1 d1 E1 Hw1 Hr0 (restart_holds o a s Hin Hs) Hs Ht0) as (R & D & T).
+  split; [exact R|split; [|exact T]]. intros Hx. apply in_app_or in Hx as [Hx|Hx]; [|exact (D Hx)].
+  pose proof (check_requests_rm _ _ _ _ _ E0 o Hx) as H. congruence.
+Qed.
+
+Lemma mild_delta n e e' : forallb mild (res_delta n e e') = true.
+Proof.
+  unfold res_delta. destruct (live e' && negb (live e)); [reflexivity|].
+  destruct (live e && negb (live e')); reflexivity.
+Qed.
+Lemma calm_delta o n e e' : forallb (calm o) (res_delta n e e') = true.
+Proof. apply mild_calm. apply mild_delta. Qed.
+Lemma calm_on_deleted o n : n <> o -> forallb (calm o) (on_deleted n) = true.
+Proof.
+  intros H. unfold on_deleted. destruct (is_dot n); cbn; [reflexivity|].
+  destruct (n =? o) eqn:E; [apply Z.eqb_eq in E; contradiction|reflexivity].
+Qed.
+Lemma calm_deliver o dels : ~ In o dels -> forallb (calm o) (deliver dels) = true.
+Proof.
+  induction dels as [|n l IH]; intros H; [reflexivity|].
+  change (deliver (n :: l)) with (on_deleted n ++ deliver l).
+  rewrite forallb_app, IH by (intros X; apply H; right; exact X).
+  rewrite calm_on_deleted; [reflexivity|]. intros ->. apply H. left; reflexivity.
+Qed.
+
+Lemma client_put_replayable n env a e : replayable e = true -> (0 <=? env) = true -> told_ok a e ->
+  replayable (fst (client_put n env e)) = true /\ told_ok a (fst (client_put n env e)).
+Proof.
+  intros Hr He Ht. destruct (replayable_inv e Hr) as (Hl & Hd & env0 & Hq & _).
+  assert (Hneg : (env <? 0) = false) by lia.
+  destruct e as [l d q u rep]. unfold told_ok in *. cbn in *. subst l d. unfold client_put. cbn.
+  destruct u; cbn; unfold replayable, req_env, live; cbn; rewrite Hneg; split; try reflexivity.
+  - left; reflexivity.
+  - exact Ht.
+Qed.
+
+(** steps that leave the request of [o] alone: no client delete, no vanishing, no interference with its request.yml,
+    only valid payloads; a start lists the directory without repetition and with [o] in it *)
+Definition spares (o : Z) (f : fop) : bool :=
+  match f with
+  | FBoot order => nodup_z order && mem_z o order
+  | FPut n env => negb (n =? o) || (0 <=? env)
+  | FDelete n | FGone n | FRmReq n => negb (n =? o)
+  | _ => true
+  end.
+
+Definition keeps_inv (c : cidr) (o a : Z) (st : fstate) : Prop :=
+  wf c (f_own st) /\ covers (f_tbl st) (f_own st) /\ replayable (fget o (f_tbl st)) = true /\
+  holds o a (f_own st) /\ sole o a (f_own st) /\ told_ok a (fget o (f_tbl st)).
+
+Lemma fstep_raw_spares c o a f st t' ops up' :
+  is_dot o = false -> spares o f = true -> keeps_inv c o a st -> fstep_raw c f st = (t', ops, up') ->
+  replayable (fget o t') = true /\ told_ok a (fget o t') /\
+  holds o a (run c ops (f_own st)) /\ sole o a (run c ops (f_own st)).
+Proof.
+  intros Hdot Hsp (Hw & Hc & Hr & Hh & Hs & Ht).
+  assert (CALM : forall l, forallb (calm o) l = true ->
+                 holds o a (run c l (f_own st)) /\ sole o a (run c l (f_own st))).
+  { intros l Hl. destruct (run_calm c o a l _ Hl Hw Hh Hs) as (H1 & H2 & _). auto. }
+  unfold fstep_raw. cbv zeta. destruct f as [order| |n env|n|n|n|n|p].
+  - cbn in Hsp. apply andb_true_iff in Hsp as [Hnd Hmem]. apply mem_z_In in Hmem.
+    destruct (startup c order (f_tbl st) (f_own st)) as [[t1 o1] d1] eqn:E1. intros E; inversion E; subst; clear E.
+    destruct (startup_spares c o a order _ _ _ _ _ E1 Hw Hr Hh Hs Ht) as (R & D & T).
+    pose proof (startup_keeps_core c order _ _ o a Hw Hc Hnd Hmem Hdot Hr Hh Hs) as K. rewrite E1 in K.
+    cbn [fst snd] in K. destruct K as (Hw1 & Hh1 & Hs1 & _).
+    rewrite run_app. destruct (run_calm c o a (deliver d1) _ (calm_deliver o d1 D) Hw1 Hh1 Hs1) as (H1 & H2 & _). auto.
+  - intros E; inversion E; subst. cbn [run]. auto.
+  - destruct (client_put n env (fget n (f_tbl st))) as [e' ev] eqn:Ep.
+    pose (t1 := fset n e' (f_tbl st)). pose (o1 := res_delta n (fget n (f_tbl st)) e').
+    assert (R1 : replayable (fget o t1) = true /\ told_ok a (fget o t1)).
+    { unfold t1. destruct (Z.eq_dec n o) as [->|Hne].
+      - rewrite fget_fset_same. cbn in Hsp. rewrite Z.eqb_refl in Hsp. cbn in Hsp.
+        pose proof (client_put_replayable o env a _ Hr Hsp Ht) as X. rewrite Ep in X. exact X.
+      - rewrite fget_fset_other by congruence. auto. }
+    destruct R1 as [R1 T1].
+    assert (C1 : forallb (calm o) o1 = true) by apply calm_delta.
+    destruct ev.
+    + intros E; inversion E; subst. destruct (CALM _ C1). auto.
+    + destruct (f_up st).
+      * destruct (on_created c n _ _) as [[t2 o2] d2] eqn:E2. intros E; inversion E; subst.
+        destruct (CALM _ C1) as [Hh1 Hs1].
+        destruct (on_created_spares c o a n _ _ _ _ _ E2 R1 Hh1 T1) as (R2 & D2 & T2).
+        split; [exact R2|split; [exact T2|]]. apply CALM.
+        rewrite !forallb_app. fold o1. rewrite C1, (mild_calm o _ (on_created_mild _ _ _ _ _ _ _ E2)), (calm_deliver o d2 D2).
+        reflexivity.
+      * intros E; inversion E; subst. destruct (CALM _ C1). auto.
+    + intros E; inversion E; subst. destruct (CALM _ C1). auto.
+  - cbn in Hsp. apply negb_true_iff in Hsp. apply Z.eqb_neq in Hsp.
+    destruct (client_delete (fget n (f_tbl st))) as [e' ev] eqn:Ep. intros E; inversion E; subst.
+    rewrite fget_fset_other by exact Hsp. split; [exact Hr|split; [exact Ht|]]. apply CALM.
+    rewrite forallb_app, calm_delta. cbn [andb]. destruct ev; try reflexivity.
+    destruct (f_up st); [|reflexivity]. apply calm_on_deleted. exact Hsp.
+  - cbn in Hsp. apply negb_true_iff in Hsp. apply Z.eqb_neq in Hsp.
+    destruct (f_up st); intros E; inversion E; subst; rewrite fget_fset_other by exact Hsp;
+      (split; [exact Hr|split; [exact Ht|]]); apply CALM.
+    + rewrite forallb_app, calm_delta. cbn [andb].
+      destruct (e_link (fget n (f_tbl st))); [apply calm_on_deleted; exact Hsp|reflexivity].
+    + apply calm_delta.
+  - intros E; inversion E; subst. cbn [run]. auto.
+  - cbn in Hsp. apply negb_true_iff in Hsp. apply Z.eqb_neq in Hsp.
+    intros E; inversion E; subst. cbn [run].
+    destruct (e_dir (fget n (f_tbl st))); [rewrite fget_fset_other by exact Hsp|]; auto.
+  - destruct (f_up st); [|intros E; inversion E; subst; cbn [run]; auto].
+    destruct p as [|n]; cbn [on_created_path]; [intros E; inversion E; subst; cbn [run app deliver flat_map]; auto|].
+    destruct (on_created c n _ _) as [[t2 o2] d2] eqn:E2. intros E; inversion E; subst.
+    destruct (on_created_spares c o a n _ _ _ _ _ E2 Hr Hh Ht) as (R2 & D2 & T2).
+    split; [exact R2|split; [exact T2|]]. apply CALM.
+    rewrite forallb_app, (mild_calm o _ (on_created_mild _ _ _ _ _ _ _ E2)), (calm_deliver o d2 D2). reflexivity.
+Qed.
+
+Lemma fstep_keeps c o a f st :
+  is_dot o = false -> spares o f = true -> keeps_inv c o a st -> keeps_inv c o a (fst (fstep c f st)).
+Proof.
+  intros Hdot Hsp Hk. pose proof Hk as (Hw & Hc & _).
+  destruct (fstep_inv c f st Hc) as (_ & Hrun & Hc'). revert Hrun Hc'. unfold fstep.
+  destruct (fstep_raw c f st) as [[t' ops] up'] eqn:E. cbn [fst snd f_own f_tbl]. intros _ Hc'.
+  destruct (fstep_raw_spares c o a f st t' ops up' Hdot Hsp Hk E) as (R & T & H & S).
+  unfold keeps_inv. cbn [f_own f_tbl]. split; [apply run_wf; exact Hw|]. auto.
+Qed.
+
+Theorem frame_run_keeps c o a fs : forall st,
+  is_dot o = false -> forallb (spares o) fs = true -> keeps_inv c o a st ->
+  keeps_inv c o a (fst (frame_run c fs st)).
+Proof.
+  induction fs as [|f fs IH]; intros st Hdot Hsp Hk; cbn; [exact Hk|].
+  cbn in Hsp. apply andb_true_iff in Hsp as [H1 H2].
+  pose proof (fstep_keeps c o a f st Hdot H1 Hk) as Hk1.
+  destruct (fstep c f st) as [st1 o1] eqn:E1. cbn [fst] in Hk1.
+  pose proof (IH st1 Hdot H2 Hk1) as Hk2.
+  destruct (frame_run c fs st1) as [st2 o2] eqn:E2. cbn [fst] in *. exact Hk2.
+Qed.
+
+(** from the empty node: after any history [fs1], an owner that has been told [a], holds it and holds nothing else
+    keeps it - in the directory, in the service's device, and in whatever reply it reads - through every continuation
+    [fs2] that leaves its request alone *)
+Theorem history_keeps_told_address c o a fs1 fs2 :
+  let st1 := fst (frame_run c fs1 fstate0) in
+  0 <= o -> replayable (fget o (f_tbl st1)) = true ->
+  client_get (fget o (f_tbl st1)) = Some (RepOk a) ->
+  lookup Z.eqb a (s_vips (f_own st1)) = Some o -> dev_holds (s_devs (f_own st1)) o a = true ->
+  sole_addr o a (f_own st1) = true ->
+  forallb (spares o) fs2 = true ->
+  let st2 := fst (frame_run c fs2 st1) in
+  lookup Z.eqb a (s_vips (f_own st2)) = Some o /\ dev_holds (s_devs (f_own st2)) o a = true /\
+  replayable (fget o (f_tbl st2)) = true /\
+  (client_get (fget o (f_tbl st2)) = None \/ client_get (fget o (f_tbl st2)) = Some (RepOk a)).
+Proof.
+  intros st1 Ho Hr Hg Hlk Hh Hso Hsp st2.
+  assert (Hdot : is_dot o = false) by (unfold is_dot; lia).
+  assert (Hc0 : covers (f_tbl fstate0) (f_own fstate0)) by (intros n Hn; discriminate).
+  destruct (frame_run_inv c fs1 fstate0 Hc0) as (_ & Hrun & Hc1). fold st1 in Hrun, Hc1.
+  assert (Hw1 : wf c (f_own st1)) by (rewrite Hrun; apply run_wf; apply wf_empty).
+  destruct (replayable_inv _ Hr) as (_ & Hd & _).
+  assert (Hk : keeps_inv c o a st1).
+  { unfold keeps_inv. split; [exact Hw1|split; [exact Hc1|split; [exact Hr|]]].
+    split; [split; [apply (lookup_In Z.eqb zeqb_spec); exact Hlk|exact Hh]|].
+    split; [apply sole_addr_sole; exact Hso|]. right. unfold client_get in Hg. rewrite Hd in Hg. exact Hg. }
+  destruct (frame_run_keeps c o a fs2 st1 Hdot Hsp Hk) as (Hw2 & _ & R2 & [Hin2 Hh2] & _ & T2). fold st2 in Hw2, R2, Hin2, Hh2, T2.
+  split; [apply (NoDup_lookup Z.eqb zeqb_spec); [exact (proj1 Hw2)|exact Hin2]|].
+  split; [exact Hh2|split; [exact R2|]].
+  destruct (replayable_inv _ R2) as (_ & Hd2 & _). unfold client_get. rewrite Hd2. exact T2.
+Qed.
